@@ -282,6 +282,9 @@ def eval_case(case: dict) -> dict:
         cnt["bfs_max_history_len"] = max((len(h) for h, _ in seen.values()), default=0)
     return {
         "viol": viol, "nt_n": ntn[0], "cnt": {k: v for k, v in cnt.items() if v}, "observations": n_obs, "evals": n_obs,
+        "sample": ({"gamma": compact(g), "mode": case["mode"], "observations": n_obs, "abstract_states": len(states),
+                    "surviving_admissible_policies": sorted(c for c in cands if admissible(g, c))[:4],
+                    "one_refutation": next(({"policy": list(c), **v} for c, v in elim.items() if admissible(g, c)), None)} if case["mode"] == "bfs" else None),
         "cands": sorted(cands), "elim": [[list(c), v] for c, v in elim.items()],
         "trans": [[list(s), list(e), sorted([b, list(s2)] for b, s2 in outs)] for (s, e), outs in trans.items()],
         "states": 0, "transitions": 0,
